@@ -388,8 +388,13 @@ class World(object):
         """Run fn() as one entry into client code."""
         if self.cur is not None:
             # re-entrant API call from inside an application callback: stays in
-            # the same dispatch
-            return self._guard(fn, kind, nested=True)
+            # the same dispatch, but timers / jitter belong to the connection called
+            saved = self.cur
+            self.cur = (saved[0], saved[1], conn if conn is not None else saved[2])
+            try:
+                return self._guard(fn, kind, nested=True)
+            finally:
+                self.cur = saved
         self.seq += 1
         self.cur = (self.seq, kind, conn)
         ci = conn.idx if conn is not None else None
@@ -493,13 +498,33 @@ class World(object):
         from twisted.internet.defer import Deferred
         proto = conn.protocol
 
+        def snap():
+            out = {}
+            for k, v in vars(proto).items():
+                if v is None or isinstance(v, (bool, int, float, str, dict)):
+                    out[k] = repr(v)
+                elif k == "state":
+                    out[k] = type(v).__name__
+            return out
+
         def call():
             st0 = type(getattr(proto, "state", None)).__name__
             self.reqs[rid]["st0"] = st0
+            before = snap() if self.reqs[rid].get("tag") == "bad" else None
             try:
                 m = getattr(proto, name)
                 res = m(*args, **kwargs)
+                if before is not None:
+                    after = snap()
+                    ch = sorted(k for k in set(before) | set(after) if before.get(k) != after.get(k))
+                    if ch:
+                        self.ev("AC", self.seq, self.now, rid, tuple(ch))
             except Exception as e:
+                if before is not None:
+                    after = snap()
+                    ch = sorted(k for k in set(before) | set(after) if before.get(k) != after.get(k))
+                    if ch:
+                        self.ev("AC", self.seq, self.now, rid, tuple(ch))
                 self.ev("R", self.seq, self.now, rid, "raised",
                         (type(e).__name__, isinstance(e, (ValueError, TypeError))),
                         (st0, type(getattr(proto, "state", None)).__name__))
